@@ -176,6 +176,7 @@ func TestClockSeamCompilesAndJumps(t *testing.T) {
 	}
 	w("go.mod", "module example.com/x\n\ngo 1.11\n")
 	w("a.go", "package x\n\nimport (\n\t\"time\"\n)\n\nvar start = time.Now()\n\nfunc Idle() time.Duration { return time.Since(start) }\n\nfunc D() time.Duration { return 3 * time.Second }\n\nvar _ = time.RFC3339\nvar _ time.Month = time.January\nvar T *time.Timer\n\nfunc After1h() <-chan time.Time { return time.After(time.Hour) }\n\nfunc Stopped1h() <-chan time.Time { t := time.NewTimer(time.Hour); t.Stop(); return t.C }\n\nfunc Janitor() <-chan time.Time { return time.NewTicker(10 * time.Minute).C }\n\nfunc Sleep1h() { time.Sleep(time.Hour) }\n\nfunc ShortTimer() time.Duration { s := time.Now(); <-time.After(20 * time.Millisecond); return time.Since(s) }\n")
+	w("c.go", "package x\n\nimport (\n\t\"context\"\n\t\"time\"\n)\n\n// Budget is what is left of a two-second budget right after it was granted.\nfunc Budget() (time.Duration, error) {\n\tctx, cancel := context.WithTimeout(context.Background(), 2*time.Second)\n\tdefer cancel()\n\tdl, _ := ctx.Deadline()\n\treturn time.Until(dl), ctx.Err()\n}\n\nfunc Expired() error {\n\tctx, cancel := context.WithDeadline(context.Background(), time.Now().Add(30*time.Millisecond))\n\tdefer cancel()\n\t<-ctx.Done()\n\treturn ctx.Err()\n}\n")
 	w("internal/y/y.go", "package y\n\nimport t \"time\"\n\nfunc Later(x t.Time) bool { return t.Now().After(x) }\n")
 	w("cmd/tool/main.go", "package main\n\nimport \"time\"\n\nfunc main() { println(time.Now().Unix()) }\n")
 	w("x_test.go", `package x
@@ -192,6 +193,17 @@ func TestJump(t *testing.T) {
 	zzclock.Jump(3600 * 1000)
 	if b := Idle(); b-a < 3599*1e9 || b-a > 3700*1e9 {
 		t.Fatal(a, b)
+	}
+}
+
+func TestContextAfterJump(t *testing.T) {
+	zzclock.Jump(7200 * 1000)
+	if d, err := Budget(); err != nil || d < time.Second || d > 2*time.Second {
+		t.Fatal("budget after a jump:", d, err)
+	}
+	s := time.Now()
+	if err := Expired(); err == nil || time.Since(s) > time.Second {
+		t.Fatal("deadline 30 ms ahead on the simulated clock:", err, time.Since(s))
 	}
 }
 
@@ -238,7 +250,7 @@ func TestTimers(t *testing.T) {
 	if err != nil {
 		t.Fatal(err)
 	}
-	if strings.Join(rep.Rewritten, ",") != "a.go,internal/y/y.go" {
+	if strings.Join(rep.Rewritten, ",") != "a.go,c.go,internal/y/y.go" {
 		t.Fatal(rep.Rewritten)
 	}
 	cmd := exec.Command("go", "test", "-race", "./...")
